@@ -384,6 +384,24 @@ def check(case, r, tier):
                                                              # shifting right by any count is plain arithmetic: floor(a / 2**n)
                                                              ("1 >> 100000001.", b"\x00\x00"), ("-1 >> 100000001.", b"\xff\xff"), ("1 _ -100000001.", b"\x00\x00"), ("-5 _ -100000001.", b"\xff\xff"),
                                                              ("1 >> 40000000000", b"\x00\x00"), ("<1 << 20.> >> 20000000.", b"\x00\x00"))]
+        # a prefix operator may follow an infix operator: a op (prefix b), also two prefixes, also after a bracket
+        for op in ref.INFIX:
+            for pre in ref.PREFIX:
+                for a, b in ((7, 2), (100, 3)):
+                    for text, tree in (("%d. %s %s%d." % (a, op, pre, b), ("bin", op, ("lit", a), ("un", pre, ("lit", b)))),
+                                       ("%d. %s %s %s%d." % (a, op, pre, "~", b), ("bin", op, ("lit", a), ("un", pre, ("un", "~", ("lit", b))))),
+                                       ("<%d.> %s %sx9" % (a, op, pre), ("bin", op, ("lit", a), ("un", pre, ("lit", 9)))),
+                                       ("%d. %s %s<%d. + 1>" % (a, op, pre, b), ("bin", op, ("lit", a), ("un", pre, ("lit", b + 1))))):
+                        if pre == "^C":
+                            text = text.replace("^C", "^C ")
+                        try:
+                            v = ref.evaluate(tree)
+                        except (ref.RefError, ref.TooBig):
+                            continue
+                        if not -2 ** 31 <= v < 2 ** 31:
+                            continue
+                        good.append((("prefix-after-infix", text), ".dword %s" % text, bytes([(v >> 16) & 255, (v >> 24) & 255, v & 255, (v >> 8) & 255])))
+        good.append((("x9",), "x9 = 11", b""))
         batch.run_valid_batch(good, r, ID)
         for s in ("1 / 0", "1 % 0", "5 / (2 - 2)", "1 << -1", "1 >> -1", "1 << (0 - 3)", "z / 0\nz = 4", "4 % y\ny = 0", "1 << n\nn = -2", "1 >> n\nn = -2"):
             text = ".word " + s + "\n"
